@@ -1,7 +1,7 @@
 SPECIFICATION Spec
 CONSTANTS
  Ent = {"e1", "e2", "e3"}
- AttrSeq <- XY
+ AttrSeq <- YR
  SVals <- SimS
  AVals <- SimA
  Vias = {"name", "get"}
